@@ -360,7 +360,7 @@ def check(run):
         crules.cells_rules(run, r5, None, None, ast)
         crules.model_rules(run, r5, ast, parts=("dummies",))
         run.rule("C02-registered", "every definition handed to add_function takes part in resolution: a definition not yet registered is always pushed into the method's catalog", floor=3)
-        crules.idem_rules(run, "C02-registered", ast)
+        crules.list_rules(run, "C02-registered", "C02-registered", "C02-registered", "C02-registered", ast)     # the catalogs that decide which definitions exist (incl. idem rules)
         run.rule("C02-best", "best(): an incomparable member is never removed (so that ambiguity is detected)", floor=3)
         crules.best_rules(run, "C02-best", ast)
         if "C02-model" not in run.rules:
